@@ -451,6 +451,15 @@ class StrSummaries:
             if cs is None:
                 return NotHandled
             ok, val = parse_f64_uf(cs)
+            if all(z3.is_bv_value(z3.simplify(c)) for c in cs):
+                # concrete text (translator self-test): the correctly rounded decimal-to-double conversion
+                txt = "".join(chr(z3.simplify(c).as_long()) for c in cs)
+                try:
+                    if not txt or any(ch not in "0123456789+-.eEinfatyINFATY" for ch in txt):
+                        raise ValueError(txt)
+                    ok, val = z3.BoolVal(True), z3.FPVal(float(txt), z3.Float64())
+                except ValueError:
+                    ok = z3.BoolVal(False)
             rty = "Result<f64, ParseFloatError>"
             co, ce = ex.feasible(st, ok), ex.feasible(st, z3.Not(ok))
             if co and ce:
